@@ -278,6 +278,16 @@ def copy_histories():
                        "shape": f"copy:{how[-1]}:{m[0]}"}
 
 
+def probe_histories(names, arglists):
+    """BASE; [cache-filling query]; m.<name>(*args); queries — for public methods the model has no op for"""
+    for name in names:
+        for args in arglists:
+            for q in (None, QUERIES[0], QUERIES[2]):
+                mid = ([q] if q else []) + [["call", name, args]] + [QUERIES[0], QUERIES[1], ["q", "eq"]]
+                yield {"ops": BASE + mid + BATTERY, "check_from": len(BASE), "stratum": "probe",
+                       "shape": f"probe:{name}"}
+
+
 def triples(rng=None, n=None):
     """build; q; m1; m2; q over the reduced argument set (all of them, or a sample of n)"""
     ms = mut_ops(reduced=True)
